@@ -37,11 +37,9 @@ impl<const N: usize> Write for ArrDest<N> {
         let start = self.pos as usize;
         // capacity is part of the harness bounds, not of the property
         kani::assume(start + buf.len() <= N);
-        let mut i = 0;
-        while i < buf.len() {
-            self.data[start + i] = buf[i];
-            i += 1;
-        }
+        // one memcpy instead of a byte loop (the loop costs ~1 s of symbolic execution per byte
+        // on a 640-byte destination)
+        self.data[start..start + buf.len()].copy_from_slice(buf);
         self.pos += buf.len() as u64;
         if start + buf.len() > self.high_water {
             self.high_water = start + buf.len();
